@@ -178,7 +178,7 @@ def run(F, S, R, tier):
         else:
             x = cl[0]
             c = x.calls_to(r"ResolvedTransaction::check$")[0]
-            if K.src_match(x.operand_sources(c.args[1]), [r"upvar:seen_inputs"]) and K.src_match(x.operand_sources(c.args[2]), [r"call:.*OverlayCellChecker::<.*>::new$"]):
+            if K.src_match(x.operand_sources(c.args[1]), [r"vty:std::collections::hash::set::HashSet<.*OutPoint>$"]) and K.src_match(x.operand_sources(c.args[2]), [r"call:.*OverlayCellChecker::<.*>::new$"]):
                 R.ok("mustcall/calc-dao/recheck", "every packaged entry is re-checked against one shared spent-set and the template's own earlier transactions over the snapshot", [c.where()])
             else:
                 R.bad("mustcall/calc-dao/recheck", "calc_dao's re-check does not use the shared seen_inputs / overlay checker", [c.where()])
@@ -197,13 +197,13 @@ def run(F, S, R, tier):
             else:
                 R.bad("mustfail/calc-dao/drop-failed/anchor-lost", "re-check verdict / checker insert not found", [x.where()])
         df = cdb.calls_to(r"DaoCalculator::<.*>::dao_field_with_current_epoch$")
-        if df and K.src_match(cdb.operand_sources(df[0].args[1]), [r"call:.*TxEntry::dummy_resolve$", r"call:.*Iterator::chain$", r"var:checked_entries"]) and K.src_match(cdb.operand_sources(df[0].args[2]), [r"call:.*Snapshot::tip_header$"]):
+        if df and K.src_match(cdb.operand_sources(df[0].args[1]), [r"call:.*TxEntry::dummy_resolve$", r"call:.*Iterator::chain$", r"vty:alloc::vec::Vec<component::entry::TxEntry>$"]) and K.src_match(cdb.operand_sources(df[0].args[2]), [r"call:.*Snapshot::tip_header$"]):
             R.ok("prov/calc-dao/field", "the dao field is computed over cellbase + accepted entries on top of the snapshot's tip", [df[0].where()])
         else:
             R.bad("prov/calc-dao/field", "calc_dao does not compute the field over (cellbase, accepted entries, tip)", [cdb.where()])
         bc = F.need(BA + "build_cellbase")
         rw = [(x, c) for x in K.with_nested(bc) for c in x.calls_to(r"RewardCalculator::<.*>::block_reward_to_finalize$")]
-        if rw and K.src_match(rw[0][0].operand_sources(rw[0][1].args[1]), [r"call:.*Snapshot::tip_header$|upvar:tip"]):
+        if rw and K.src_match(rw[0][0].operand_sources(rw[0][1].args[1]), [r"call:.*Snapshot::tip_header$|vty:&ckb_types::core::views::HeaderView$"]):
             R.ok("prov/cellbase-reward", "the template cellbase pays RewardCalculator::block_reward_to_finalize(tip)", [rw[0][1].where()])
         else:
             R.bad("prov/cellbase-reward", "build_cellbase does not take the reward from RewardCalculator::block_reward_to_finalize(tip)", [bc.where()])
@@ -259,7 +259,7 @@ def run(F, S, R, tier):
         else:
             R.bad("prov/selector/all-proposed", "the all-ancestors-proposed test is gone", [ts.where()])
         so = ts.calls_to(r"sort_unstable_by_key$")
-        pu = [c for c in ts.calls_to(r"Vec::<.*>::push$") if K.src_match(ts.operand_sources(c.args[0]), [r"var:ancestors"])]
+        pu = [c for c in ts.calls_to(r"Vec::<.*>::push$") if K.src_match(ts.operand_sources(c.args[0]), [r"vty:alloc::vec::Vec<component::entry::TxEntry>$"])]
         if so and pu and ts.dominates(so[0].bb, pu[0].bb):
             R.ok("order/selector/parents-first", "ancestors are ordered by ancestor count and the entry itself comes last", [so[0].where()])
         else:
